@@ -9,6 +9,10 @@ CFG = {
              "element list of Contour::to_kurbo with coordinates as f64 bit patterns, decoded exactly (quarter units). transforms: 100k/1M "
              "lines of 6 coefficients + point (small integers, quarter units, arbitrary finite doubles, font-unit decimals, boundary values) "
              "observing ContourPoint::transform, kurbo::Affine::from(t) * Point, the coefficients of both conversions and both round trips. "
+             "glif stream (G, ~80k documents): one contour in format 1 AND 2 through Glyph::parse_raw, names on the first / middle / last / all / random "
+             "points, coordinates that COINCIDE (closing point repeats the first, all equal, stacked pairs, off-curves on top of the next on-curve, "
+             "two alternating positions) for every type sequence of 1-4 points and 25k/200k longer contours; the expected path is the model's on the "
+             "point list of the XML, not of the parsed Contour (format-1 implicit anchor = exactly one named move). "
              "plus ~17k near-shape transforms: every coefficient at the value of a shape an optimisation might test for (identity, zero, pure "
              "translation, scale only, uniform scale, equal cross terms, quarter turn, mirror) or 1-2 ulp / 2^-53 / 1e-16 / EPS/2 / EPS / 2 EPS beside it, "
              "all six at once and one at a time, applied to the origin, +-0 and points at 2^52, 2^53, 1e18, +-MAX/4. "
